@@ -680,6 +680,16 @@ func (d *dataWorld) opModify(tp *simkit.Tape, stats map[string]int) {
 		if sqlCond == "" {
 			sqlCond = cond
 		}
+		if d.child != "" && tp.Chance(1, 4) {
+			// the linked child table is placed by the same key: assigning it must be refused as well
+			tref = d.child
+			target = strings.Replace(target, t+".", d.child+".", 1)
+			cond, sqlCond = "g = -99", "g = 1"
+			if strings.HasPrefix(target, "xa.") {
+				tref, sqlCond = d.child+" as xa", "xa.g = 1"
+			}
+			kind = "update-sharding-column-of-linked-table"
+		}
 		sql = fmt.Sprintf("update %s set v = 1, %s = %s where %s", tref, target, lit(rule.keys[tp.Choose(len(rule.keys))]), sqlCond)
 		if tp.Chance(1, 4) {
 			// the same through INSERT ... ON DUPLICATE KEY UPDATE
